@@ -110,8 +110,31 @@ pub fn c_log(e: &LogEntry) -> String {
     }
 }
 
+/// the one place where the code's order is a heap's internal iteration order (the block of MessageDropped entries
+/// logged by one System::crash_node call) is canonicalised by sorting that block
+pub fn canon_entries(l: Vec<String>) -> Vec<String> {
+    let mut out: Vec<String> = Vec::with_capacity(l.len());
+    let mut i = 0;
+    while i < l.len() {
+        out.push(l[i].clone());
+        if l[i].starts_with("NodeCrashed ") {
+            let mut j = i + 1;
+            while j < l.len() && l[j].starts_with("MessageDropped ") {
+                j += 1;
+            }
+            let mut blk: Vec<String> = l[i + 1..j].to_vec();
+            blk.sort();
+            out.extend(blk);
+            i = j;
+        } else {
+            i += 1;
+        }
+    }
+    out
+}
+
 pub fn c_trace(l: &[LogEntry]) -> String {
-    l.iter().map(c_log).collect::<Vec<_>>().join(";")
+    canon_entries(l.iter().map(c_log).collect::<Vec<_>>()).join(";")
 }
 
 pub fn c_hentry(h: &HEntry) -> String {
